@@ -406,6 +406,39 @@ pub fn c03(h: &Hist, s: u8, v: &mut Verdicts) {
             );
         }
     }
+    // subscribers registered at run time and never unsubscribed are "whole run" from their first
+    // notification on: from there to the end their stream is the expected one, gap-free and in order
+    let first_shutdown = sh.stops.iter().map(|r| r.inv).min().unwrap_or(INF);
+    for si in h.subs.iter().filter(|si| si.kind == SK_DIRECT && !si.at_build && si.store == s && !unsubscribed.contains(&si.id)) {
+        if h.reg_ret(s, REG_SUB, si.id) == 0 || h.reg_ret(s, REG_SUB, si.id) > first_shutdown {
+            continue;
+        }
+        let actual: Vec<&Ev> = h.evs.iter().filter(|e| e.k == K::SBeg && e.idx == si.id && e.store == s).collect();
+        if actual.is_empty() {
+            continue;
+        }
+        let start = match exp.iter().position(|e| e.a == actual[0].a) {
+            Some(p) => p,
+            None => continue,
+        };
+        let mut j = 0usize;
+        for e in &exp[start..] {
+            if j < actual.len() && actual[j].a == e.a {
+                if e.forbidden {
+                    v.fail("C03", format!("store {}: subscriber {} (registered at run time) was notified of {} although it does not notify", s, si.id, id_str(e.a)));
+                } else if let Some(x) = e.state {
+                    if actual[j].x != x {
+                        v.fail("C03", format!("store {}: subscriber {} (registered at run time) was notified of {} with a state that is not the one this action produced", s, si.id, id_str(e.a)));
+                    }
+                }
+                j += 1;
+                compared += 1;
+            } else if e.required {
+                v.fail("C03", format!("store {}: subscriber {} (registered at run time, never unsubscribed) saw {} and later actions but never {} (gap in its stream)", s, si.id, id_str(actual[0].a), id_str(e.a)));
+                break;
+            }
+        }
+    }
     // registration order inside each action
     let order: HashMap<u32, usize> = whole.iter().enumerate().map(|(i, si)| (si.id, i)).collect();
     for a in &sh.taken {
@@ -544,7 +577,9 @@ pub fn c07(h: &Hist, s: u8, v: &mut Verdicts) {
                 continue;
             }
             let vetoed = ar.vetoed();
-            let notif = ar.notifying();
+            // a store without reducers has nobody to answer Keep: every non-vetoed action notifies
+            let no_reducers = cfg.n_red == 0 && h.n_red_final[s as usize] == 0;
+            let notif = if no_reducers && !vetoed { Some(true) } else { ar.notifying() };
             let brk = |hook: u32, midx: u32| ar.mws.iter().any(|m| m.hook == hook && m.midx < midx && m.verdict == V_BREAK);
             // reducers
             let n_red_req = cfg.n_red + regs.iter().filter(|e| e.r == REG_REDUCER && e.seq < d.inv).count() as u32;
